@@ -1805,16 +1805,16 @@ variable {DT : Type} (C : DTCodec DT)
 /-- names of the fields `ServeManifest.get` / `calculate_options` assign after parsing -/
 def handlerFields : List String := ["mode", "patch", "segmentTimeline"]
 
-/-- the intermediate results of an accepted manifest request -/
+/-- the intermediate results of an accepted manifest request: the parsed arguments, their
+feature-filtered form checked by `check_option_values`, and the fields the handler hands on -/
 theorem serve_stages (K : FilterConsts) (tbl : List OptionRow) (m : ManifestRow) (mode : Bytes)
     (args : List (Bytes × Bytes)) (dflt : Nat → Val DT) (of : Opts DT)
     (hs : serveManifestOptions C K tbl m mode args dflt = .ok of) :
-    ∃ o0 o1 o5 : Nat → Val DT,
+    ∃ o0 o2 o5 : Nat → Val DT,
       convertOptions C tbl dflt (applyRestrictions m.restrictions args) = .ok o0 ∧
-      checkOptionValues C K tbl o0 = .ok o1 ∧
+      checkOptionValues C K tbl (removeUnsupported K tbl m.features dflt o0) = .ok o2 ∧
       of = removeUnused K tbl mode o5 ∧
-      ∀ i r, tbl[i]? = some r → r.fieldName ∉ handlerFields →
-        o5 i = removeUnsupported K tbl m.features dflt o1 i := by
+      ∀ i r, tbl[i]? = some r → r.fieldName ∉ handlerFields → o5 i = o2 i := by
   unfold serveManifestOptions at hs
   cases hc : calculateOptions C K tbl mode args dflt (some m.features) (some m.restrictions) with
   | error e => rw [hc] at hs; simp at hs
@@ -1828,9 +1828,9 @@ theorem serve_stages (K : FilterConsts) (tbl : List OptionRow) (m : ManifestRow)
     | ok o0 =>
       rw [h0] at hc
       simp only at hc
-      cases h1 : checkOptionValues C K tbl o0 with
+      cases h1 : checkOptionValues C K tbl (removeUnsupported K tbl m.features dflt o0) with
       | error e => rw [h1] at hc; simp at hc
-      | ok o1 =>
+      | ok o2 =>
         rw [h1] at hc
         simp only [Except.ok.injEq] at hc
         by_cases hrej : (truthy (getField tbl (forcePatch tbl mode o3) "patch") &&
@@ -1838,12 +1838,12 @@ theorem serve_stages (K : FilterConsts) (tbl : List OptionRow) (m : ManifestRow)
         · rw [if_pos hrej] at hs; simp at hs
         · rw [if_neg hrej] at hs
           simp only [Except.ok.injEq] at hs
-          refine ⟨o0, o1, _, rfl, h1, hs.symm, ?_⟩
+          refine ⟨o0, o2, _, rfl, h1, hs.symm, ?_⟩
           intro i r hr hn
           have hm : r.fieldName ≠ "mode" := fun e => hn (by simp [handlerFields, e])
           have hp : r.fieldName ≠ "patch" := fun e => hn (by simp [handlerFields, e])
           have ht : r.fieldName ≠ "segmentTimeline" := fun e => hn (by simp [handlerFields, e])
-          have e3 : o3 i = removeUnsupported K tbl m.features dflt o1 i := by
+          have e3 : o3 i = o2 i := by
             rw [← hc]; exact setFieldByName_other tbl _ "mode" _ i r hr hm
           have e4 : forcePatch tbl mode o3 i = o3 i := by
             unfold forcePatch
@@ -1859,54 +1859,6 @@ theorem serve_stages (K : FilterConsts) (tbl : List OptionRow) (m : ManifestRow)
             · rfl
 
 end
-
-
-section
-variable {DT : Type} [DecidableEq DT] (C : DTCodec DT)
-
-/-- the names `calculate_cgi_parameters` excludes for every media type -/
-def mediaExclude : List String := ["encrypted", "mode"]
-
-/-- the media handler's view of the parameters `calculate_cgi_parameters` wrote for one media type:
-it accepts the URL, has the parsed text for every written parameter and the default for every
-option no parameter names -/
-theorem media_side_parse (hC : DtCodecLaws C) (tbl : List OptionRow) (ht : TableOk tbl)
-    (use : Nat) (dflt : Nat → Val DT) (o : Opts DT)
-    (ovs : List (String × Bytes)) (hovs : (ovs.map Prod.fst).Nodup)
-    (path : Bytes) (hp : (35 : UInt8) ∉ path ∧ (63 : UInt8) ∉ path)
-    (hcanon : ∀ i : Nat, ∀ r : OptionRow, ∀ v, tbl[i]? = some r → o i = some v →
-      r.usage &&& use ≠ 0 → mediaExclude.contains r.fieldName = false → v ≠ dflt i →
-      r.cgi ∉ ovs.map Prod.fst → Canonical r.kind v)
-    (hov : ∀ k t, (k, t) ∈ ovs → ∃ i : Nat, ∃ r : OptionRow, ∃ w, tbl[i]? = some r ∧ r.cgi = k ∧
-      fromString C r.kind t = .ok w) :
-    ∃ res, mediaOptions C tbl dflt
-        (path ++ mediaQuery C tbl use (fun i => some (dflt i)) o ovs) = .ok res ∧
-      (∀ i : Nat, ∀ r : OptionRow, tbl[i]? = some r →
-        (∀ t, (r.cgi, t) ∉ applyOverrides
-          (genParams C tbl (some use) mediaExclude true (fun i => some (dflt i)) o) ovs) →
-        res i = dflt i) ∧
-      (∀ i : Nat, ∀ r : OptionRow, ∀ t, tbl[i]? = some r →
-        (r.cgi, t) ∈ applyOverrides
-          (genParams C tbl (some use) mediaExclude true (fun i => some (dflt i)) o) ovs →
-        fromString C r.kind (cgiText t) = .ok (res i)) := by
-  have hGnd : ((genParams C tbl (some use) mediaExclude true (fun i => some (dflt i)) o).map Prod.fst).Nodup :=
-    genFrom_keys_nodup C (some use) mediaExclude true _ o tbl 0 (table_cgi_nodup tbl ht)
-  have hmem := mem_applyOverrides (genParams C tbl (some use) mediaExclude true (fun i => some (dflt i)) o) ovs hovs
-  exact media_parse_of_params C tbl ht dflt path hp _ (applyOverrides_keys_nodup _ ovs hGnd) (by
-    intro p hpP
-    rcases (hmem p).mp hpP with ⟨hpG, hnov⟩ | ⟨t, hto, hp2⟩
-    · obtain ⟨i, r, hr, he⟩ := (mem_genParams C tbl (some use) mediaExclude true _ o p).mp hpG
-      obtain ⟨v, ho, hx, hd, hu, hpe⟩ := (emit_some_iff C _ _ _ _ _ _ _ _).mp he
-      have hc : r.cgi = p.1 := by rw [← hpe]
-      have hd' : v ≠ dflt i := by intro e; simp [e] at hd
-      obtain ⟨v', hv', _⟩ := codec_roundtrip_all C hC r.kind v
-        (hcanon i r v hr ho (by simpa [useMiss] using hu) hx hd' (by rw [hc]; exact hnov))
-      exact ⟨i, r, v', hr, hc, by rw [← hpe]; exact hv'⟩
-    · obtain ⟨i, r, w, hr, hc, hw⟩ := hov p.1 t hto
-      exact ⟨i, r, w, hr, hc, by rw [hp2]; exact hw⟩)
-
-end
-
 
 theorem fieldIdx_of_get (tbl : List OptionRow) (hnd : (tbl.map OptionRow.fieldName).Nodup) (i : Nat)
     (r : OptionRow) (h : tbl[i]? = some r) : fieldIdx tbl r.fieldName = some i := by
@@ -1979,5 +1931,52 @@ theorem globalDefault_ast_canonical (tbl : List OptionRow) (i : Nat) (r : Option
   exact hs
 
 end
+
+section
+variable {DT : Type} [DecidableEq DT] (C : DTCodec DT)
+
+/-- the names `calculate_cgi_parameters` excludes for every media type -/
+def mediaExclude : List String := ["encrypted", "mode"]
+
+/-- the media handler's view of the parameters `calculate_cgi_parameters` wrote for one media type:
+it accepts the URL, has the parsed text for every written parameter and the default for every
+option no parameter names -/
+theorem media_side_parse (hC : DtCodecLaws C) (tbl : List OptionRow) (ht : TableOk tbl)
+    (use : Nat) (dflt : Nat → Val DT) (o : Opts DT)
+    (ovs : List (String × Bytes)) (hovs : (ovs.map Prod.fst).Nodup)
+    (path : Bytes) (hp : (35 : UInt8) ∉ path ∧ (63 : UInt8) ∉ path)
+    (hcanon : ∀ i : Nat, ∀ r : OptionRow, ∀ v, tbl[i]? = some r → o i = some v →
+      r.usage &&& use ≠ 0 → mediaExclude.contains r.fieldName = false → v ≠ dflt i →
+      r.cgi ∉ ovs.map Prod.fst → Canonical r.kind v)
+    (hov : ∀ k t, (k, t) ∈ ovs → ∃ i : Nat, ∃ r : OptionRow, ∃ w, tbl[i]? = some r ∧ r.cgi = k ∧
+      fromString C r.kind t = .ok w) :
+    ∃ res, mediaOptions C tbl dflt
+        (path ++ mediaQuery C tbl use (fun i => some (dflt i)) o ovs) = .ok res ∧
+      (∀ i : Nat, ∀ r : OptionRow, tbl[i]? = some r →
+        (∀ t, (r.cgi, t) ∉ applyOverrides
+          (genParams C tbl (some use) mediaExclude true (fun i => some (dflt i)) o) ovs) →
+        res i = dflt i) ∧
+      (∀ i : Nat, ∀ r : OptionRow, ∀ t, tbl[i]? = some r →
+        (r.cgi, t) ∈ applyOverrides
+          (genParams C tbl (some use) mediaExclude true (fun i => some (dflt i)) o) ovs →
+        fromString C r.kind (cgiText t) = .ok (res i)) := by
+  have hGnd : ((genParams C tbl (some use) mediaExclude true (fun i => some (dflt i)) o).map Prod.fst).Nodup :=
+    genFrom_keys_nodup C (some use) mediaExclude true _ o tbl 0 (table_cgi_nodup tbl ht)
+  have hmem := mem_applyOverrides (genParams C tbl (some use) mediaExclude true (fun i => some (dflt i)) o) ovs hovs
+  exact media_parse_of_params C tbl ht dflt path hp _ (applyOverrides_keys_nodup _ ovs hGnd) (by
+    intro p hpP
+    rcases (hmem p).mp hpP with ⟨hpG, hnov⟩ | ⟨t, hto, hp2⟩
+    · obtain ⟨i, r, hr, he⟩ := (mem_genParams C tbl (some use) mediaExclude true _ o p).mp hpG
+      obtain ⟨v, ho, hx, hd, hu, hpe⟩ := (emit_some_iff C _ _ _ _ _ _ _ _).mp he
+      have hc : r.cgi = p.1 := by rw [← hpe]
+      have hd' : v ≠ dflt i := by intro e; simp [e] at hd
+      obtain ⟨v', hv', _⟩ := codec_roundtrip_all C hC r.kind v
+        (hcanon i r v hr ho (by simpa [useMiss] using hu) hx hd' (by rw [hc]; exact hnov))
+      exact ⟨i, r, v', hr, hc, by rw [← hpe]; exact hv'⟩
+    · obtain ⟨i, r, w, hr, hc, hw⟩ := hov p.1 t hto
+      exact ⟨i, r, w, hr, hc, by rw [hp2]; exact hw⟩)
+
+end
+
 
 end DashLive.Options
